@@ -30,7 +30,7 @@ func (e *FnEnc) havocAllKeeping(list string) {
 		}
 		c.Modifies = append(c.Modifies, ModItem{Src: it, E: x})
 	}
-	env := &specEnv{e: e, vars: map[string]Val{}, st: e.st, old: e.st0}
+	env := &specEnv{e: e, vars: map[string]Val{}, st: e.st, old: e.st0, fvs: e.fvPtrs}
 	for k, v := range e.params {
 		env.vars[k] = v
 	}
